@@ -194,7 +194,7 @@ def c06_3(R):
     R.floor("RttEstimator::sample call sites", n, 2)
 
 
-@rule("C06.4", ["C06", "C01"], ["E1"], "every transmission of a sequence number carries the same bytes",
+@rule("C06.4", ["C06", "C01", "C14"], ["E1"], "every transmission of a sequence number carries the same bytes",
       "Segment.payload_size and Segment.payload_offset_absolute are never assigned after construction; Segment is constructed only in Segments::enqueue; the only way a sequence number is re-segmented is "
       "the pop of a never-delivered MTU probe (pop_mtu_probe / pop_expired_mtu_probe control-dependent on is_mtu_probe and !is_delivered).")
 def c06_4(R):
